@@ -240,10 +240,11 @@ func (k *kase) wide() string {
 	k.wideOne("generic", desc, tree.ToGo(), want, false, sep(), lists, elems, true)
 	k.wideOne("typed", desc, gen.ToTyped(r, tree), want, false, sep(), lists, elems, true)
 	k.wideOne("interface-keyed", desc, gen.ToMapI(tree), want, false, sep(), lists, elems, true)
-	if inner, err, ok := k.newFrom("building a *Config from the wide tree ("+desc+")", W.ToGo(), nil); ok && err == nil {
-		k.wideOne("config-value", desc, map[string]interface{}{"w": inner, "z": int64(1)}, want, false, sep(), lists, elems, false)
-	} else if ok {
-		k.res.Violate("wide:top-level:newfrom-error:"+reasonShort(err), "NewFrom returned %v; wide tree (%s) as the top-level value", err, desc)
+	if outer, err, ok := k.newFrom("building a *Config holding the wide tree ("+desc+")", map[string]interface{}{"w": W.ToGo()}, nil); ok && err == nil {
+		var inner *ucfg.Config
+		if p, _, _ := harness.Safe(func() { inner, err = outer.Child("w", -1) }); !p && err == nil {
+			k.wideOne("config-value", desc, map[string]interface{}{"w": inner, "z": int64(1)}, want, false, sep(), lists, elems, false)
+		}
 	}
 
 	// the wide tree itself as the top-level value; lists not longer than 6000
@@ -281,7 +282,10 @@ func (k *kase) wide() string {
 	}
 	fold("w", F, 0)
 	fwant := model.Dict().Set("w", F).Set("z", model.P(int64(1))).Canon()
-	k.wideOne("dotted", fmt.Sprintf("%s, %d primitives, %d dotted keys", shape, leaves(F), len(flat)-1), flat, fwant, false, sepOpts, 0, 0, false)
+	// positions are indexes up to MaxIdx (default 1024, beyond that they are
+	// names: C20): the call allows as many as the longest list has
+	dopts := []ucfg.Option{ucfg.PathSep("."), ucfg.MaxIdx(int64(leaves(F) + 1))}
+	k.wideOne("dotted", fmt.Sprintf("%s, %d primitives, %d dotted keys", shape, leaves(F), len(flat)-1), flat, fwant, false, dopts, 0, 0, false)
 	return desc
 }
 
